@@ -73,6 +73,11 @@ type Case struct {
 	// signature of the OTHER envelope format to the artifact; it is listed first and fails, the
 	// library's own signature comes second and must verify all the same
 	StrangerFirst bool `json:"strangerFirst,omitempty"`
+	// SignedBefore (oci): the repository keeps the descriptor objects it resolves (as an OCI layout or a
+	// caching client does) and the same artifact has been signed once before, with other user metadata:
+	// "the verified payload equals the signed descriptor ... (user metadata included)" - the metadata of
+	// this call, not of an earlier one
+	SignedBefore bool `json:"signedBefore,omitempty"`
 	// Transient (plugin signers): the plugin answers ONE command once with a retryable error code
 	// (THROTTLED / TIMEOUT) and works from then on: "metadata", "describe", "generate" + ":" + code.
 	// Whether the library gives up or tries again is its business; a signature it returns must be
@@ -206,7 +211,8 @@ func (p *honestPlugin) VerifySignature(ctx context.Context, req *pf.VerifySignat
 // ---- scripted in-memory repository ----
 
 type memRepo struct {
-	desc ocispec.Descriptor
+	desc   ocispec.Descriptor
+	retain bool // Resolve hands out the descriptor it keeps, annotation map included
 	sigs []struct {
 		mt   string
 		blob []byte
@@ -216,7 +222,7 @@ type memRepo struct {
 
 func (r *memRepo) Resolve(ctx context.Context, ref string) (ocispec.Descriptor, error) {
 	d := r.desc
-	if d.Annotations != nil { // hand out a private copy: sharing is C11's subject, not C07's
+	if d.Annotations != nil && !r.retain { // hand out a private copy: sharing is C11's subject, not C07's
 		d.Annotations = map[string]string{}
 		for k, v := range r.desc.Annotations {
 			d.Annotations[k] = v
@@ -451,6 +457,22 @@ func roundTrip(c *Case) (string, string) {
 	if c.Kind == "oci" {
 		repo := &memRepo{desc: c.Desc}
 		ref := "registry.example/c07/repo@" + c.Desc.Digest.String()
+		pristineAnn := map[string]string{}
+		for k, v := range c.Desc.Annotations {
+			pristineAnn[k] = v
+		}
+		if c.SignedBefore {
+			repo.retain = true
+			repo.desc.Annotations = map[string]string{}
+			for k, v := range pristineAnn {
+				repo.desc.Annotations[k] = v
+			}
+			if _, _, err := notation.SignOCI(ctx, sgn, repo, notation.SignOptions{SignerSignOptions: sopts, ArtifactReference: ref, UserMetadata: map[string]string{"earlier-build": "7"}}); err == nil {
+				repo.sigs = nil
+			} else if len(repo.sigs) != 0 {
+				return "C07:pushed-although-signing-failed:" + site, fmt.Sprintf("the earlier SignOCI failed (%v) yet %d signatures were pushed", err, len(repo.sigs))
+			}
+		}
 		artDesc, _, err := notation.SignOCI(ctx, sgn, repo, notation.SignOptions{SignerSignOptions: sopts, ArtifactReference: ref, UserMetadata: c.Metadata})
 		if err != nil && c.Transient != "" && c.Signer != "local" {
 			if len(repo.sigs) != 0 {
@@ -500,7 +522,7 @@ func roundTrip(c *Case) (string, string) {
 		outcome = outs[0]
 		payloadWant.mediaType, payloadWant.digest, payloadWant.size = c.Desc.MediaType, c.Desc.Digest.String(), c.Desc.Size
 		payloadWant.ann = map[string]string{}
-		for k, v := range c.Desc.Annotations {
+		for k, v := range pristineAnn {
 			payloadWant.ann[k] = v
 		}
 		for k, v := range c.Metadata {
@@ -687,6 +709,7 @@ func drawCase(rt *rapid.T) *Case {
 		}
 		c.Desc = d
 		c.StrangerFirst = rapid.IntRange(0, 3).Draw(rt, "strangerFirst") == 0
+		c.SignedBefore = rapid.IntRange(0, 3).Draw(rt, "signedBefore") == 0
 		for k := range d.Annotations { // user metadata must not collide with the artifact's annotations
 			delete(c.Metadata, k)
 		}
@@ -733,6 +756,9 @@ func TestC07_RoundTrip(t *testing.T) {
 		if c.Kind == "oci" && len(c.Desc.Annotations) > 0 {
 			cl = append(cl, "artifact-annotations")
 		}
+		if c.SignedBefore {
+			cl = append(cl, "same-artifact-signed-before-with-other-metadata")
+		}
 		if c.StrangerFirst {
 			cl = append(cl, "untrusted-signature-of-other-format-listed-first")
 		}
@@ -763,7 +789,7 @@ func TestC07_RoundTrip(t *testing.T) {
 				cl = append(cl, "after-failed-read")
 			}
 		}
-		rec.Case(cl, true, stats.Fingerprint(c.KeySpec, c.Format, c.Signer, c.Kind, fmt.Sprintf("%+v", c.Desc), c.EmptyAnn, c.BlobLen, c.BlobSeed, c.MediaType, strings.Join(mk, ";"), c.ExpirySecs, c.Identity, c.SignReader, c.VerReader, c.FailFirst, c.VerifyOmit, c.OtherKeyFirst, c.StrangerFirst, c.Transient, c.TrustRotated), func() any { return c })
+		rec.Case(cl, true, stats.Fingerprint(c.KeySpec, c.Format, c.Signer, c.Kind, fmt.Sprintf("%+v", c.Desc), c.EmptyAnn, c.BlobLen, c.BlobSeed, c.MediaType, strings.Join(mk, ";"), c.ExpirySecs, c.Identity, c.SignReader, c.VerReader, c.FailFirst, c.VerifyOmit, c.OtherKeyFirst, c.StrangerFirst, c.SignedBefore, c.Transient, c.TrustRotated), func() any { return c })
 		key, msg := roundTrip(c)
 		if key == "harness" {
 			rt.Fatalf("harness: %s", msg)
